@@ -14,7 +14,7 @@ import gen
 import vlib
 from vlib import Report, ToolError, cached, cargo_build_or_die, log, mkscratch, rmtree
 
-DEPS = ["spec/Grammar.tla", "spec/CanonLR.tla", "spec/Sem.tla", "spec/SemVal.tla", "spec/Cfg.tla", "spec/Prec.tla", "spec/Macro.tla", "spec/Gen.tla", "spec/MCEval.cfg", "spec/LRMachine.tla", "spec/MCRun.cfg", "spec/TraceLR.tla", "spec/TraceLR.cfg", "tools/core.py", "tools/eng_core.py",
+DEPS = ["spec/Grammar.tla", "spec/CanonLR.tla", "spec/Sem.tla", "spec/SemVal.tla", "spec/Cfg.tla", "spec/Prec.tla", "spec/Macro.tla", "spec/Gen.tla", "spec/Types.tla", "spec/MCEval.cfg", "spec/LRMachine.tla", "spec/MCRun.cfg", "spec/TraceLR.tla", "spec/TraceLR.cfg", "tools/core.py", "tools/eng_core.py",
         "tools/c_core.py", "tools/gen.py", "tools/lp.py", "tools/vlib.py", "harness/crates/runner", "harness/crates/lpdrv",
         "harness/Cargo.toml", "harness/.cargo"]
 PROPS = ["C01", "C02", "C04", "C05", "C06", "C07", "C08", "C16", "C17", "C19"]
@@ -145,6 +145,21 @@ def run_batch(cgs, tier, seed, keep_dir=None, variants_fn=None, owner=None, debu
                     # expected for LALR. Not judged here.
                     rejected.append((m, r["message"][:100]))
         byid = {cg["id"]: cg for cg in usable}
+        # the nonterminal types LALRPOP inferred against Types.tla (C19)
+        ntypes = 0
+        for m, _, starts in modules:
+            gid, algo, backend = m.split("_")
+            cg = byid[gid]
+            if cg.get("names") or backend != "table":
+                continue
+            spec_t = eng_core.run_eval.types.get("%s@%s" % (gid, cg["starts"][0]))
+            if not spec_t:
+                continue
+            ntypes += len(spec_t)
+            for nt, want, got in eng_core.compare_types(spec_t, res[m]["export"]):
+                dis.append({"prop": "C19", "kind": "inferred_type_differs", "backend": backend, "algo": algo, "gid": gid,
+                            "start": cg["starts"][0], "input": [], "cg": cg, "facts": [],
+                            "detail": "nonterminal %s: documented rules give %s, LALRPOP inferred `%s`" % (nt, json.dumps(want), got)})
         # the runtime model over the exported tables of every accepted module
         run_cases = []
         long_run_cases = []
@@ -363,6 +378,7 @@ def run_batch(cgs, tier, seed, keep_dir=None, variants_fn=None, owner=None, debu
                 "rejected_by_lalrpop": len(rejected), "records": sum(len(v) for v in recs.values()),
                 "record_kinds": kinds, "machine_records": sum(len(v) for v in rrecs.values()), "machine_record_kinds": rkinds,
                 "machine_recovered_parses": nrec, "driver_traces_validated": ntraces, "trace_states": tstates,
+                "nonterminal_types_compared": ntypes,
                 "requests": len(reqs), "states": states + rstates, "generated": generated + rgenerated,
                 "stats": stats, "disagreements": dis, "samples": samples}
     finally:
@@ -494,7 +510,9 @@ RULES = {
     "C17": "fallible actions with generator-chosen failure conditions and one injected stream error at every position; "
            "expected error, action log and pull count from Sem.tla",
     "C19": "every module LALRPOP generated for the batch is compiled by rustc; a module that fails to compile is attributed "
-           "to its grammar",
+           "to its grammar; in addition the type LALRPOP inferred for every nonterminal (hook export) is compared with the "
+           "type Types.tla derives from the documented rules (declared type; single handed symbol / tuple / (); Vec, Option "
+           "and group types of the macro batch)",
 }
 
 
@@ -510,6 +528,16 @@ def check_prop(prop, tier, seed):
         rep.add(programs=s["modules"], disagreements_checked=n)
     rep.add(grammars_lr1=s["grammars_lr1"], modules_compiled=s["modules"], spec_records=s["records"],
             record_kinds=s["record_kinds"])
+    if prop == "C19":
+        import c_feat
+        ms = c_feat.macro_summary(tier, seed)
+        rep.add(nonterminal_types_compared=s.get("nonterminal_types_compared", 0) + ms.get("nonterminal_types_compared", 0),
+                macro_batch_modules_compiled=ms["modules"])
+        rep.evaluations += ms["modules"]
+        rep._distinct |= {("macro", i) for i in range(ms["modules"])}
+        for d in ms["disagreements"]:
+            if d["kind"] in ("inferred_type_differs", "does_not_compile"):
+                rep.violation(dkey(d), describe(d), replay_obj(d))
     for x in s["samples"]:
         rep.sample(x)
     for d in s["disagreements"]:
@@ -669,8 +697,9 @@ _TEXT = {
            "exactly, so the model is bound to the code.",
     "C17": "TLC enumerates an injected stream error at every position and failing fallible actions; result, action log and pull "
            "count must match exactly.",
-    "C19": "Oracle is rustc: every generated module of the batch must compile against lalrpop-util; the specification supplies the "
-           "population (binding forms, inferred/annotated types) only.",
+    "C19": "Oracle for compilation is rustc: every generated module of the core and macro batches must compile against "
+           "lalrpop-util; the types LALRPOP inferred for the nonterminals are compared with Types.tla (documented inference "
+           "rules evaluated by TLC).",
 }
 
 
